@@ -167,12 +167,17 @@ def run(prog, res):
   from ..rules import staleloop as _sl
   _sl.check(prog, res, [f for f in prog.all_functions() if f.parent is None])
   res.floor('X6', 250)
+  _sl.check_unused_iteration(prog, res, [f for f in prog.all_functions()])
+  res.floor('X9', 200)
   from ..rules import siblings
   siblings.selfcheck()
   for f in prog.all_functions():
     if f.parent is None:
       siblings.check_function(prog, res, f)
   res.floor('CP1', 150)
+  from ..rules import accum
+  accum.check(prog, res, [f for f in prog.all_functions()])
+  res.floor('S14', 20)
   res.floor('N0', 250)
   res.floor('V1', 60)
   res.floor('V1s', 3)
